@@ -1,0 +1,39 @@
+/*
+ * Verification hooks (only active when built with -DCPP_TBOX_VERIF).
+ *
+ * TBOX_VERIF_SCHED_POINT("name") marks a point at which a test harness may want to
+ * perturb the thread schedule (delay / yield).  Without the guard it expands to nothing.
+ */
+#ifndef TBOX_BASE_VERIF_HOOKS_H_20261002
+#define TBOX_BASE_VERIF_HOOKS_H_20261002
+
+#ifdef CPP_TBOX_VERIF
+#include <atomic>
+
+namespace tbox {
+namespace verif {
+
+using SchedPointHook = void (*)(const char *name);
+
+inline std::atomic<SchedPointHook>& SchedPointHookRef()
+{
+    static std::atomic<SchedPointHook> hook{nullptr};
+    return hook;
+}
+
+inline void SchedPoint(const char *name)
+{
+    auto hook = SchedPointHookRef().load(std::memory_order_acquire);
+    if (hook != nullptr)
+        hook(name);
+}
+
+}
+}
+
+#define TBOX_VERIF_SCHED_POINT(name) ::tbox::verif::SchedPoint(name)
+#else
+#define TBOX_VERIF_SCHED_POINT(name) do { } while (0)
+#endif
+
+#endif //TBOX_BASE_VERIF_HOOKS_H_20261002
